@@ -264,11 +264,16 @@ fn show_sgn(s: Sgn0Result) -> String {
     }.to_string()
 }
 
-fn sqrt_op<T: SqrtField + Elem + PartialOrd>(op: &str, a: &[&str]) -> R {
+fn sqrt_op<T: SqrtField + Elem + PartialOrd + Ord + Copy>(op: &str, a: &[&str]) -> R {
     Some(match (op, a.len()) {
         ("sqrt", 1) => show_opt(T::parse(a[0])?.sqrt()),
         ("legendre", 1) => show_leg(T::parse(a[0])?.legendre()),
         ("lt", 2) => show_bool(T::parse(a[0])? < T::parse(a[1])?),
+        // every comparison entry point: Ord::cmp, PartialOrd::partial_cmp, the four operators, max/min
+        ("cmpall", 2) => { let (x, y) = (T::parse(a[0])?, T::parse(a[1])?);
+            let o = |c: std::cmp::Ordering| match c { std::cmp::Ordering::Less => -1, std::cmp::Ordering::Equal => 0, std::cmp::Ordering::Greater => 1 };
+            format!("{} {} {} {} {} {} {} {}", o(x.cmp(&y)), x.partial_cmp(&y).map(o).unwrap_or(9), show_bool(x < y), show_bool(x <= y), show_bool(x > y), show_bool(x >= y),
+                    std::cmp::max(x, y).show(), std::cmp::min(x, y).show()) }
         _ => return None,
     })
 }
@@ -1054,6 +1059,11 @@ macro_rules! sqrt_op_c { ($name:ident, $t:ty) => { fn $name(op: &str, a: &[&str]
         ("sqrt", 1) => show_opt(<$t>::parse(a[0])?.sqrt()),
         ("legendre", 1) => show_leg(<$t>::parse(a[0])?.legendre()),
         ("lt", 2) => show_bool(<$t>::parse(a[0])? < <$t>::parse(a[1])?),
+        // every comparison entry point: Ord::cmp, PartialOrd::partial_cmp, the four operators, max/min
+        ("cmpall", 2) => { let (x, y) = (<$t>::parse(a[0])?, <$t>::parse(a[1])?);
+            let o = |c: std::cmp::Ordering| match c { std::cmp::Ordering::Less => -1, std::cmp::Ordering::Equal => 0, std::cmp::Ordering::Greater => 1 };
+            format!("{} {} {} {} {} {} {} {}", o(x.cmp(&y)), x.partial_cmp(&y).map(o).unwrap_or(9), show_bool(x < y), show_bool(x <= y), show_bool(x > y), show_bool(x >= y),
+                    std::cmp::max(x, y).show(), std::cmp::min(x, y).show()) }
         _ => return None,
     })
 } } }
